@@ -314,7 +314,10 @@ void execute_assignment(StatementExecutor *executor, Interpreter &interpreter,
     }
 
     // 右辺が三項演算子の場合の特別処理
-    if (node->right && node->right->node_type == ASTNodeType::AST_TERNARY_OP) {
+    // （左辺が配列要素やメンバの場合は execute_ternary_assignment が対象を特定できないため通常の代入処理に任せる）
+    if (node->right && node->right->node_type == ASTNodeType::AST_TERNARY_OP &&
+        (!node->left ||
+         node->left->node_type == ASTNodeType::AST_VARIABLE)) {
         executor->execute_ternary_assignment(node);
         return;
     }
